@@ -1,14 +1,13 @@
 (* Props/C04More.v — property C04, the classes Props/C04.v left open (see the comment above C04_reset_erases_step_leaf): lemmas in
    Pat/ResetProofs2.v.
 
-   xpat s p   the extended reset fragment.  s = false: every class of rpat (Props/C04.v), now also with tuple- / list- /
-              dict-valued parameters that hold no pattern next() could advance, plus PSequence with pattern items,
+   xpat s p   the extended reset fragment.  s = false: every class of rpat (Props/C04.v), now also with tuple-valued parameters
+              holding patterns to any depth (Pattern.value resolves them; since the repair C04-reset-tuples Pattern.reset
+              rewinds them) and list- / dict-valued parameters, plus PSequence with pattern items (also inside tuples),
               PConcatenate, PRound (pattern arguments and keyword arguments), PIndexOf, PArrayIndex (over a value, a pattern,
               or a literal list with pattern items), PDict, PDictKey, and PReset(p, trigger) for ANY p of the strict part;
               nested to any depth.  s = true: the strict part (PPingPong / PReverse only over inputs of the fragment;
-              list- / dict-valued parameters in value position hold no pattern at all).
-   Excluded, and the statement is FALSE there (C04_more_tuple_pattern_not_rewound; known finding C04-reset-tuples): a pattern
-   stored inside a tuple.
+              a list / dict in value position holds items of the fragment).
    binop (operator semantics) is arbitrary; f, f' are recursion fuels; run, reset, step as in Props/C04.v. *)
 From Isobar Require Import Base.Prelude Pat.Val Pat.Syntax Pat.Step Pat.StepProofs Pat.IterProofs Pat.ResetProofs Pat.ResetProofs2.
 From Coq Require Import String QArith.
@@ -63,12 +62,12 @@ Ltac xm :=
   cbv beta; cbn [snd];
   match goal with
   | |- xarg _ (AV _) => apply xarg_val
-  | |- xarg _ (AT _) => apply XA_still; [repeat constructor|intros _; exact I]
-  | |- xarg _ (AL _) => apply XA_still; [constructor|intros _; reflexivity]
+  | |- xarg _ (AT _) => apply XA_tup; xm
+  | |- xarg _ (AL _) => apply XA_list; intros _; xm
   | |- xarg _ (AP _) => apply XA_pat; xm
   | |- Forall _ [] => constructor
   | |- Forall _ (_ :: _) => constructor; [xm|xm]
-  | |- xpat _ (PArrayIndex (AL _) _) => apply XP_arrayindex_list; xm
+  | |- xpat _ (PArrayIndex (AL _) _ _) => apply XP_arrayindex_list; xm
   | |- xpat _ _ => constructor; xm
   | |- _ = _ -> _ => intros _; xm
   | |- _ => idtac
@@ -100,7 +99,7 @@ Definition ex_dict : pat := PDict (AD [("a"%string, AP (seq_ [1; 2; 3] 1)); ("b"
 Definition ex_dictkey : pat := PDictKey (AP ex_dict) (AP (PSequence (AL [AV (VStr "a"); AV (VStr "c")]) (AV (VInt 2)) 0 0)).
 Definition ex_concat : pat := PConcatenate (AL [AP (seq_ [1; 2] 1); AP (ser 7 2); AP (seq_ [3] 2)]) 0.
 Definition ex_arrayindex : pat :=
-  PArrayIndex (AL [AP (ser 0 9); AV (VInt 9); AP (seq_ [4; 5] 3)]) (AP (seq_ [0; 1; 0; 2; 2; 0] 1)).
+  PArrayIndex (AL [AP (ser 0 9); AV (VInt 9); AP (seq_ [4; 5] 3)]) (AP (seq_ [0; 1; 0; 2; 2; 0] 1)) false.
 Definition ex_round : pat := PMap (AP (PBinOp ODiv (AP (ser 5 4)) (AV (VInt 2)))) FRound [AP (seq_ [0] 9)] [].
 Definition ex_indexof : pat := PIndexOf (AL [AV (VInt 4); AV (VInt 5)]) (AP (seq_ [5; 4; 6] 1)).
 
@@ -135,16 +134,33 @@ Proof.
   split; [unfold ex_reset2, ex_concat, seq_, ser; cbn [map]; xm|]. split; vm_compute; reflexivity.
 Qed.
 
-(* WHERE THE FULL STATEMENT IS FALSE: a pattern stored inside a tuple.  Pattern.reset walks patterns, list items and dict
-   values, not tuples (Step.reset_field transcribes that), while Pattern.value(tuple) advances the patterns inside:
-   PSequence([(PSeries(0, 1), 7)], 3) after one next() and reset() still has its series at 1.  The implementation
-   behaves the same (next, next, reset, next gives (0, 7) (1, 7) (2, 7); a new instance starts at (0, 7)): model and
-   code agree.  This is a violation of C04 ("... and the same is true of every pattern nested inside it"): the KNOWN FINDING
-   C04-reset-tuples (known_findings.d/C04.json, findings/C04-reset-tuples.md with the proposed repair); the tuple stratum of
-   harness/c04.py generates such objects and reports it as known.  They are outside xpat. *)
+(* A PATTERN STORED INSIDE A TUPLE IS REWOUND.  Pattern.value(tuple) advances the patterns inside a tuple; until the repair
+   C04-reset-tuples (findings/C04-reset-tuples.diff) Pattern.reset did not walk tuples, so PSequence([(PSeries(0, 1), 7)], 3)
+   after next, next, reset continued with (2, 7) where a new instance gives (0, 7).  Pattern.reset now resets whatever
+   Pattern.value would advance, Step.reset_value transcribes it, and tuples holding patterns - to any depth - are part of the
+   fragment (constructor XA_tup), so C04_more_reset_erases_step / _erases_reset / _any_history cover them. *)
+Theorem C04_more_tuple_in_fragment : forall s l, Forall (xarg s) l -> xarg s (AT l).
+Proof. exact XA_tup. Qed.
+
+Theorem C04_more_tuple_item_rewound : forall binop LMAX s f f' k l rep rc pos,
+  Forall (xarg s) l -> xarg s rep ->
+  reset binop LMAX f (run binop LMAX f' k (PSequence (AL l) rep rc pos)) = reset binop LMAX f (PSequence (AL l) rep rc pos).
+Proof. intros. apply C04_more_reset_any_history with (s := s). apply XP_seq; assumption. Qed.
+Print Assumptions C04_more_tuple_item_rewound.
+
 Definition ex_tuple : pat := PSequence (AL [AT [AP (ser 0 9); AV (VInt 7)]]) (AV (VInt 3)) 0 0.
-Example C04_more_tuple_pattern_not_rewound :
+Definition ex_tuple_nested : pat :=
+  PSequence (AL [AV (VInt 1); AT [AT [AP (ser 0 9); AV (VInt 7)]; AP (seq_ [4; 5] 2)]]) (AV (VInt 3)) 0 0.
+Example C04_more_tuple_pattern_rewound :
+  xpat true ex_tuple /\ xpat true ex_tuple_nested /\
   reset Val.binop 100 30 ex_tuple = Yield ex_tuple /\
-  reset Val.binop 100 30 (snd (step Val.binop 100 30 ex_tuple)) <> reset Val.binop 100 30 ex_tuple /\
-  fst (outputs Val.binop 100 30 3 ex_tuple) = [Yield (VTup [VInt 0; VInt 7]); Yield (VTup [VInt 1; VInt 7]); Yield (VTup [VInt 2; VInt 7])].
-Proof. split; [vm_compute; reflexivity|]. split; [vm_compute; discriminate|vm_compute; reflexivity]. Qed.
+  run Val.binop 100 30 2 ex_tuple <> ex_tuple /\
+  reset Val.binop 100 30 (run Val.binop 100 30 2 ex_tuple) = Yield ex_tuple /\
+  reset Val.binop 100 30 (run Val.binop 100 30 3 ex_tuple_nested) = Yield ex_tuple_nested /\
+  fst (outputs Val.binop 100 30 3 ex_tuple) = [Yield (VTup [VInt 0; VInt 7]); Yield (VTup [VInt 1; VInt 7]); Yield (VTup [VInt 2; VInt 7])] /\
+  fst (outputs Val.binop 100 30 4 ex_tuple_nested) =
+    [Yield (VInt 1); Yield (VTup [VTup [VInt 0; VInt 7]; VInt 4]); Yield (VInt 1); Yield (VTup [VTup [VInt 1; VInt 7]; VInt 5])].
+Proof.
+  split; [unfold ex_tuple, ser; xm|]. split; [unfold ex_tuple_nested, seq_, ser; cbn [map]; xm|].
+  split; [vm_compute; reflexivity|]. split; [vm_compute; discriminate|]. repeat split; vm_compute; reflexivity.
+Qed.
